@@ -20,6 +20,7 @@
 mod client;
 mod hosted;
 mod model;
+mod repro;
 mod wire;
 
 use hosted::Backing;
@@ -754,7 +755,7 @@ fn robust_leg(sh: &Shared, kind: Kind, depth: usize, cap_s: f64) {
         transitions: total.transitions,
         evaluations: total.evals,
         distinct_nontrivial: total.nontrivial,
-        rule: "every sequence over the whole alphabet up to the length bound, run on both implementations in all four configurations for panic-freedom and quiescence; non-trivial = sequences a lane cannot produce".into(),
+        rule: "every sequence over the whole alphabet up to the length bound, run on both implementations in all four configurations for panic-freedom and quiescence; non-trivial = (configuration, sequence) pairs whose sequence a lane cannot produce (by the acceptor under the default configuration)".into(),
         samples: vec![json!({"seq": "synced,linked,linked,synced,synced", "checked": "no panic, quiescence after every input and after closing the input"})],
         exhaustive: all,
         bounds: json!({"kind": kind.name(), "alphabet_size": a, "max_len": depth, "configs": 4, "impls": ["client", "hosted"]}),
@@ -786,6 +787,10 @@ fn replay(ctx: &Ctx, sh: &Shared, r: &Value) {
 }
 
 fn main() {
+    if std::env::var("C08_REPRO").is_ok() {
+        repro::run();
+        return;
+    }
     std::panic::set_hook(Box::new(|_| {}));
     let ctx = Ctx::from_env("C08");
     let sh = Shared { ctx: &ctx, wire: Wire::new(), patterns: Mutex::new(vec![]), findings: Mutex::new(BTreeMap::new()), samples: Mutex::new(vec![]) };
@@ -818,12 +823,12 @@ fn main() {
     // value: alphabet 7 (5 without local writes); map: alphabet 21 (14 without local writes)
     bfs_leg(&sh, Bfs { name: "legal-value", mode: m(Kind::Value, false, hash), local: true, depth: if q { 7 } else { 9 }, mask: both, cap_s: 200.0 });
     bfs_leg(&sh, Bfs { name: "legal-value-notifications-only", mode: m(Kind::Value, false, hash), local: false, depth: if q { 8 } else { 10 }, mask: both | burst, cap_s: 200.0 });
-    bfs_leg(&sh, Bfs { name: "legal-map", mode: m(Kind::Map, false, hash), local: true, depth: if q { 5 } else { 7 }, mask: both, cap_s: if q { 40.0 } else { 700.0 } });
+    bfs_leg(&sh, Bfs { name: "legal-map", mode: m(Kind::Map, false, hash), local: true, depth: if q { 5 } else { 7 }, mask: both, cap_s: if q { 40.0 } else { 900.0 } });
     bfs_leg(&sh, Bfs { name: "legal-map-notifications-only", mode: m(Kind::Map, false, hash), local: false, depth: if q { 6 } else { 7 }, mask: both | burst, cap_s: if q { 40.0 } else { 500.0 } });
     bfs_leg(&sh, Bfs { name: "redundant-client-value", mode: m(Kind::Value, true, hash), local: false, depth: if q { 7 } else { 9 }, mask: CLIENT_OK, cap_s: 100.0 });
     bfs_leg(&sh, Bfs { name: "redundant-client-map", mode: m(Kind::Map, true, hash), local: false, depth: if q { 5 } else { 6 }, mask: CLIENT_OK, cap_s: if q { 20.0 } else { 300.0 } });
     bfs_leg(&sh, Bfs { name: "hosted-map-btree-backing", mode: m(Kind::Map, false, Backing::BTree), local: false, depth: if q { 5 } else { 6 }, mask: HOSTED_OK, cap_s: if q { 20.0 } else { 300.0 } });
-    robust_leg(&sh, Kind::Value, if q { 6 } else { 8 }, 100.0);
+    robust_leg(&sh, Kind::Value, if q { 6 } else { 8 }, if q { 30.0 } else { 300.0 });
     robust_leg(&sh, Kind::Map, if q { 4 } else { 5 }, if q { 30.0 } else { 400.0 });
 
     let findings = std::mem::take(&mut *sh.findings.lock().unwrap());
